@@ -78,6 +78,7 @@ func (f *FuncContract) Key() string {
 }
 
 type SpecFunc struct {
+	Abstract bool // uninterpreted: no body
 	Pkg    string
 	Name   string
 	Params []Param
@@ -122,6 +123,7 @@ func NewContracts() *Contracts {
 
 var (
 	reFuncHdr  = regexp.MustCompile(`^func\s+(?:\(\s*(\*?\w+)\s*\)\s*)?(\w+)(?:\s+results\s*\(([^)]*)\))?\s*$`)
+	reSpecAbs  = regexp.MustCompile(`^spec\s+abstract\s+func\s+(\w+)\s*\(([^)]*)\)\s*([\w\[\]\.]+)\s*$`)
 	reSpecHdr  = regexp.MustCompile(`^spec\s+(rec\s+prefix\s+|rec\s+|opaque\s+)?func\s+(\w+)\s*\(([^)]*)\)\s*([\w\[\]\.]+)\s*=\s*(.*)$`)
 	reLemmaHdr = regexp.MustCompile(`^lemma\s+(\w+)\s*\(([^)]*)\)\s*$`)
 	reLabel    = regexp.MustCompile(`^([a-zA-Z_][a-zA-Z0-9_]*):\s+(.*)$`)
@@ -250,6 +252,20 @@ func (cs *Contracts) ParseFile(path, pkgName string) error {
 			cs.Funcs[curF.Key()] = curF
 			cs.Order = append(cs.Order, curF.Key())
 		case "spec":
+			if ma := reSpecAbs.FindStringSubmatch(t); ma != nil {
+				// uninterpreted specification function (no definition): spec abstract func f(params) T
+				ps, err := parseParams(ma[2])
+				if err != nil {
+					return fail(l, "%v", err)
+				}
+				sf := &SpecFunc{Pkg: pkgName, Name: ma[1], Params: ps, Ret: ma[3], Abstract: true, Line: l.line, File: path}
+				if _, dup := cs.Specs[sf.Name]; dup {
+					return fail(l, "duplicate spec func %s", sf.Name)
+				}
+				cs.Specs[sf.Name] = sf
+				curF, curL, curLoop = nil, nil, nil
+				continue
+			}
 			m := reSpecHdr.FindStringSubmatch(t)
 			if m == nil {
 				return fail(l, "bad spec header %q", t)
